@@ -10,6 +10,8 @@ let () =
     | "c20" -> C20.model_line, Some C20.judge_line
     | "optstr" -> C20.optstr_line, None
     | "c12" -> C12.model_line, Some C12.judge_line
+    | "c11" -> C11.model_line, Some C11.judge_line
+    | "unicode" -> C11.unicode_line, None
     | _ -> failwith ("unknown property " ^ prop) in
   let out = Buffer.create 65536 in
   List.iteri (fun i c ->
